@@ -120,6 +120,7 @@ def run_c02(res, tier):
     import moves, passes
     moves.run_moves(res, ast)
     passes.run_pass_kill(res, ast)
+    passes.run_live_outer(res, ast)
     import iolim
     iolim.run_io_map(res, ast)       # ',' stores the next byte or 0 at end of input: part of C02's statement
     if tier == "thorough":
@@ -176,6 +177,7 @@ def run_c11(res, tier):
     ast = load_ast()
     passes.run_c11(res, ast)
     passes.run_pass_kill(res, ast)
+    passes.run_live_outer(res, ast)
     res.rule("LAYOUT-PAIR", "the interpreter context is allocated and freed with the identical layout expression, sized for "
              "max(temps, 2) cells (the two register spill slots are always present)", floor=1, what="layout pairs")
     bcops.run_layout_pair(res, ast, "LAYOUT-PAIR")
@@ -262,15 +264,16 @@ META = {
         explanation="E1 rules over bcint/ops.rs, basejit/codegen.rs, the Executable impls and src/bin/hpbf.rs.",
         not_decided=["that the pre-allocated region suffices for a given program's pointer excursion"]),
     "C11": dict(
-        technique="by-construction rules: visitor completeness against the enum definitions, offset provenance, pass ordering, index alignment of parallel vectors",
+        technique="by-construction rules: visitor completeness against the enum definitions, offset provenance, pass ordering, index alignment of parallel vectors; evaluation of count_temps / record_branch_targets on representative programs; must-pass-through and value-provenance rules in the code generator",
         claim="Decides two of the five clauses by construction: every temporary index is below Program.temps (TEMPS-BY-CONSTRUCTION) and every tape "
               "operand lies in the declared window, which contains 0 (WINDOW-BY-CONSTRUCTION); plus the index alignment of `live` with `insts` (LIVE-ZIP) "
-              "and the kill sets of the two backward passes (PASS-KILL). Branch targets after no-op stripping, read-before-write of temporaries and "
-              "adequacy of the live bitmaps are value-dependent and not decided.",
+              "and the kill sets of the two backward passes including the reset at branch targets in every iteration (PASS-KILL), and one necessary condition of the "
+              "live bitmaps: the loop-end live-range extension uses the saved start of the enclosing loop (LIVE-OUTER). Branch targets after no-op stripping, "
+              "read-before-write of temporaries and full adequacy of the live bitmaps are value-dependent and not decided.",
         note=TRUST,
         explanation="E1 rules over src/bc.rs and src/ir.rs.",
         not_decided=["branch offsets after strip_noops land on instruction boundaries", "no temporary is read before it is written on any path (GVN invalidation)",
-                     "live bitmaps cover every register temporary still needed (live-range computation)"]),
+                     "live bitmaps cover every register temporary still needed (live-range computation; only the enclosing-loop threshold of the extension is decided: LIVE-OUTER)"]),
     "C12": dict(
         technique="pairing rule for the two parser stacks, position-provenance rule, dispatch-table exhaustiveness, who-parses-what rule, index-guard dominance rule for the in-place scan",
         claim="Decides acceptance (stack pairing => accepts iff balanced), error kind and position (character index of the first unmatched `]`, else of "
